@@ -328,6 +328,10 @@ fn decode_stun_message(bytes: &[u8]) -> Result<StunDecoded> {
     let mut data = None;
     let mut use_candidate = false;
     let mut lifetime = None;
+    // RFC 5389 15.4: attributes that follow MESSAGE-INTEGRITY (other than
+    // FINGERPRINT) are not covered by it and must be ignored - anyone on the
+    // path can append them (e.g. USE-CANDIDATE) to an authentic message.
+    let mut after_integrity = false;
     while offset + 4 <= bytes.len() {
         let typ = u16::from_be_bytes([bytes[offset], bytes[offset + 1]]);
         let len = u16::from_be_bytes([bytes[offset + 2], bytes[offset + 3]]) as usize;
@@ -336,7 +340,15 @@ fn decode_stun_message(bytes: &[u8]) -> Result<StunDecoded> {
             break;
         }
         let value = &bytes[offset..offset + len];
+        if after_integrity {
+            offset += len;
+            offset += (4 - (len % 4)) % 4;
+            continue;
+        }
         match typ {
+            0x0008 => {
+                after_integrity = true;
+            }
             0x0020 => {
                 if let Some(addr) = parse_xor_address(value, &transaction_id)? {
                     xor_mapped_address = Some(addr);
